@@ -582,13 +582,19 @@ been initialized
                     )
                     raise
         finally:
-            output.write("\n")
-            if hide_cursor:
-                output.write(SHOW_CURSOR)
-            output.flush()
-            if not_echo_input:
-                termios.tcsetattr(output_fd, termios.TCSANOW, old_attr)
-            render_data.finalize()
+            try:
+                output.write("\n")
+                if hide_cursor:
+                    output.write(SHOW_CURSOR)
+                output.flush()
+            finally:
+                # Must be restored even if the output stream fails or writing to it
+                # is interrupted.
+                try:
+                    if not_echo_input:
+                        termios.tcsetattr(output_fd, termios.TCSANOW, old_attr)
+                finally:
+                    render_data.finalize()
 
     def render(
         self,
